@@ -241,7 +241,7 @@ func wktTree(g geom.T, layouts map[string]bool) map[string]any {
 		cs := g.Coords()
 		out := make([][]int, len(cs))
 		for i, c := range cs {
-			if c == nil {
+			if len(c) == 0 { // an empty member (nil or zero-length)
 				out[i] = []int{-1}
 			} else {
 				out[i] = idVec(c)
